@@ -242,6 +242,7 @@ def monitor(reqs, replies, roles):
     drained = collections.defaultdict(bytes)
     sent = collections.defaultdict(bytes)
     next_id = collections.defaultdict(lambda: 1)
+    inprog = collections.defaultdict(dict)   # operations in progress per session, tracked from API outcomes only
 
     def viol(prop, key, what, i):
         v[prop].append({"key": key, "what": what, "step": i, "history": reqs[: i + 1]})
@@ -260,6 +261,7 @@ def monitor(reqs, replies, roles):
         is_send = k in SEND_KINDS
         bo, ao = bytes.fromhex(before.get("out", "")), bytes.fromhex(after.get("out", ""))
         have_int = "out" in before and "out" in after
+        prog_before = dict(inprog[nm])
 
         # ---------------- C12: exactly-once, in-order delivery of outgoing bytes
         if k == "drain":
@@ -285,13 +287,16 @@ def monitor(reqs, replies, roles):
                 viol("C10", None, f"a refused send call failed with {ok} instead of the library's error type", i)
             if have_int and ao != bo:
                 viol("C10", None, "a refused send call changed the outgoing byte stream", i)
-        if role == "server" and k in SERVER_RESP and accepted and "outstanding" in before:
-            if call["id"] not in before["outstanding"]:
-                viol("C10", None, "server emitted a response for a request that is not outstanding", i)
-            if k in FINAL_RESP and call["id"] in after["outstanding"]:
-                viol("C10", None, "a final response did not retire the request", i)
-            if k not in FINAL_RESP and call["id"] not in after["outstanding"]:
-                viol("C10", None, "a search entry/reference retired the request", i)
+        if role == "server" and k in SERVER_RESP and accepted:
+            if call["id"] not in prog_before:
+                viol("C10", None, "server emitted a response for a request that is not outstanding (never received, or already answered by a final response)", i)
+            if "outstanding" in after:
+                if k in FINAL_RESP and call["id"] in after["outstanding"]:
+                    viol("C10", None, "a final response did not retire the request", i)
+                if k not in FINAL_RESP and call["id"] in prog_before and call["id"] not in after["outstanding"]:
+                    viol("C10", None, "a search entry/reference retired the request", i)
+        if role == "server" and k in SERVER_RESP and not accepted and ok == "LDAPError" and call["id"] in prog_before and before["state"] == "OPENED":
+            viol("C10", None, "server refused a response for a request that is outstanding", i)
 
         # ---------------- C09: client ids and correlation
         if role == "client" and k in CLIENT_REQ and ok == "sent":
@@ -306,19 +311,19 @@ def monitor(reqs, replies, roles):
                         viol("C09", None, "the id inside the emitted bytes differs from the id returned", i)
                 except BaseException:  # noqa: BLE001
                     pass
-        if role == "client" and k == "receive" and "outstanding" in before and before["state"] != "CLOSED" and not before.get("residue"):
+        if role == "client" and k == "receive" and before["state"] != "CLOSED" and not before.get("residue"):
             single = q.get("_single")
             if single is not None:
                 is_resp = single["op"]["k"] in ("bindResp", "searchEntry", "searchDone", "searchRef", "extResp")
                 is_notice = ev_of_msgjson(single) == "terminate"
-                should = is_resp and single["id"] in before["outstanding"] and not is_notice
+                should = is_resp and single["id"] in prog_before and not is_notice
                 if should and ok != "msgs":
                     viol("C09", None, "a response for an operation in progress was not accepted", i)
                 if not should and not (ok == "ProtocolError" and after["state"] == "CLOSED"):
                     viol("C09", None, "a message that is not a response for an operation in progress did not raise ProtocolError and close the session", i)
-                if should and ok == "msgs":
+                if should and ok == "msgs" and "outstanding" in after:
                     still = single["id"] in after["outstanding"]
-                    want = single["id"] in before["searches"] and single["op"]["k"] != "searchDone"
+                    want = prog_before.get(single["id"]) == "search" and single["op"]["k"] != "searchDone"
                     if still != want:
                         viol("C09", None, "operation lifetime wrong after an accepted response", i)
 
@@ -348,14 +353,150 @@ def monitor(reqs, replies, roles):
                     viol("C08", "C08:refused-server-response-opens-session", "refused server response moved BEFORE_OPEN to OPENED", i)
                 else:
                     viol("C08", None, f"state after the call is {after['state']}, the documented automaton gives {st}", i)
-            if role == "client" and k == "bind" and before.get("outstanding") and accepted:
+            if role == "client" and k == "bind" and prog_before and accepted:
                 viol("C08", None, "a bind was accepted while other operations are outstanding", i)
+            if role == "server" and k == "receive" and ok == "msgs":
+                pb = dict(prog_before)
+                for m in out["ms"]:
+                    if m["op"]["k"] == "bindReq" and pb:
+                        viol("C08", None, "a server accepted a bind request while other operations are outstanding", i)
+                    pb[m["id"]] = m["op"]["k"]
             if before["state"] == "BINDING" and is_send and accepted:
                 e = evs[0] if evs else None
                 if e not in ("bindStart", "bindDone", "bindContinue", "terminate"):
                     viol("C08", None, "a non-bind message was sent while BINDING", i)
+        # ---------------- abstract bookkeeping of operations in progress (from API outcomes only)
+        if role == "client":
+            if k in CLIENT_REQ and ok == "sent":
+                inprog[nm][out["id"]] = "search" if k == "search" else "other"
+            if k == "receive" and ok == "msgs":
+                for m in out["ms"]:
+                    kind = inprog[nm].get(m["id"])
+                    if kind is not None and not (kind == "search" and m["op"]["k"] != "searchDone"):
+                        inprog[nm].pop(m["id"], None)
+        else:
+            if k == "receive" and ok == "msgs":
+                for m in out["ms"]:
+                    inprog[nm][m["id"]] = m["op"]["k"]
+            if k in FINAL_RESP and accepted:
+                inprog[nm].pop(call["id"], None)
+        if after["state"] == "CLOSED":
+            inprog[nm].clear()
         snap[nm] = after
     return v
+
+
+# ------------------------------------------------------------------ small-alphabet enumeration
+
+def _pack(m):
+    return C.msg_from_json(m).pack(M.PackingOptions()).hex()
+
+
+def small_alphabet(role):
+    t = C.tx
+    res = lambda code: {"code": code, "mdn": t(""), "diag": t(""), "refs": None}
+    if role == "client":
+        syms = [
+            {"k": "bind", "dn": t(""), "cred": {"k": "simple", "pw": t("")}, "controls": []},
+            {"k": "search", "base": t(""), "scope": 2, "deref": 0, "size": 0, "time": 0, "typesOnly": False, "filter": None, "attrs": [], "controls": []},
+            {"k": "extended", "name": t("1.2"), "value": None, "controls": []},
+            {"k": "unbind"},
+        ]
+        for i in (1, 2):
+            for op in ({"k": "searchEntry", "name": t(""), "attrs": []}, {"k": "searchRef", "uris": [t("ldap://a")]}, {"k": "searchDone", "res": res(0)},
+                       {"k": "extResp", "res": res(0), "name": None, "value": None}, {"k": "bindResp", "res": res(0), "sasl": None},
+                       {"k": "bindResp", "res": res(14), "sasl": None}):
+                syms.append({"k": "receive", "chunk": _pack({"id": i, "op": op, "controls": []})})
+        syms.append({"k": "receive", "chunk": _pack({"id": 0, "op": {"k": "extResp", "res": res(52), "name": t(NOTICE), "value": None}, "controls": []})})
+        syms.append({"k": "receive", "chunk": _pack({"id": 1, "op": {"k": "extReq", "name": t("1.2"), "value": None}, "controls": []})})
+        return syms
+    ext = lambda i: {"k": "receive", "chunk": _pack({"id": i, "op": {"k": "extReq", "name": t("1.2"), "value": None}, "controls": []})}
+    syms = [
+        {"k": "receive", "chunk": _pack({"id": 1, "op": {"k": "bindReq", "version": 3, "name": t(""), "cred": {"k": "simple", "pw": t("")}}, "controls": []})},
+        ext(1), ext(2),
+        {"k": "receive", "chunk": _pack({"id": 2, "op": {"k": "searchReq", "base": t(""), "scope": 2, "deref": 0, "size": 0, "time": 0, "typesOnly": False,
+                                                        "filter": {"k": "present", "a": t("cn")}, "attrs": []}, "controls": []})},
+        {"k": "receive", "chunk": _pack({"id": 0, "op": {"k": "unbind"}, "controls": []})},
+        {"k": "receive", "chunk": _pack({"id": 1, "op": {"k": "bindResp", "res": res(0), "sasl": None}, "controls": []})},
+        {"k": "unbind"},
+    ]
+    z = {"mdn": t(""), "diag": t(""), "controls": []}
+    for i in (1, 2):
+        syms += [
+            {"k": "bindResponse", "id": i, "sasl": None, "code": 0, **z},
+            {"k": "entry", "id": i, "name": t(""), "attrs": [], "controls": []},
+            {"k": "reference", "id": i, "uris": [t("ldap://a")], "controls": []},
+            {"k": "done", "id": i, "code": 0, **z},
+            {"k": "extendedResponse", "id": i, "name": None, "value": None, "code": 0, **z},
+        ]
+    syms.append({"k": "bindResponse", "id": 1, "sasl": None, "code": 14, **z})
+    syms.append({"k": "extendedResponse", "id": 1, "name": t(NOTICE), "value": None, "code": 52, **z})
+    return syms
+
+
+def enumerate_sequences(rng, role, full_len, sample_len, n_samples):
+    """all call sequences up to `full_len` over the small alphabet, plus random longer ones"""
+    syms = small_alphabet(role)
+    seqs = []
+
+    def rec(prefix, depth):
+        if depth == 0:
+            return
+        for a in syms:
+            seqs.append(prefix + [a])
+            rec(prefix + [a], depth - 1)
+
+    rec([], full_len)
+    # keep only maximal sequences (prefixes are covered by them)
+    seqs = [q for q in seqs if len(q) == full_len]
+    for _ in range(n_samples):
+        seqs.append([rng.choice(syms) for _ in range(sample_len)])
+    return seqs
+
+
+def run_enumeration(ctx, prop, full_len, sample_len, n_samples):
+    rng = ctx.rng
+    violations = []
+    hist = collections.Counter()
+    all_reqs = []
+    bounds = []
+    n = 0
+    for role in ("client", "server"):
+        for si, seq in enumerate(enumerate_sequences(rng, role, full_len, sample_len, n_samples)):
+            name = f"{role[0]}e{si}"
+            reqs = [{"op": "sess_new", "name": name, "role": role}] + [{"op": "call", "name": name, "call": c} for c in seq] + \
+                   [{"op": "sess_del", "name": name}]
+            for q in reqs:
+                if q["op"] == "call" and q["call"]["k"] == "receive" and role == "client":
+                    try:
+                        data = bytes.fromhex(q["call"]["chunk"])
+                        q["_single"] = C.msg_to_json(M.unpack_ldap_message(sansldap.asn1.ASN1Reader(data), M.PackingOptions()))
+                    except BaseException:  # noqa: BLE001
+                        pass
+            bounds.append((len(all_reqs), len(reqs)))
+            all_reqs.extend(reqs)
+            n += 1
+    clean = [{k: v for k, v in q.items() if k != "_single"} for q in all_reqs]
+    replies = drive.run_impl(copy.deepcopy(clean))
+    for (start, ln) in bounds:
+        reqs = all_reqs[start:start + ln]
+        reps = replies[start:start + ln]
+        nm = reqs[0]["name"]
+        mv = monitor(reqs[:-1], reps[:-1], {nm: reqs[0]["role"]})
+        violations.extend(mv.get(prop, [])[:2])
+        hist[reqs[0]["role"] + ":" + str(ln - 2)] += 1
+    disagreements = []
+    if ctx.driver_ok:
+        b = drive.run_model(clean)
+        for (start, ln) in bounds:
+            for i in range(start, start + ln):
+                x, y = project(prop, drive.norm(replies[i])), project(prop, drive.norm(b[i]))
+                if x != y:
+                    disagreements.append({"history": clean[start: i + 1], "impl": x, "model": y})
+                    break
+            if len(disagreements) >= 10:
+                break
+    return {"sequences": n, "steps": len(all_reqs), "violations": violations, "disagreements": disagreements, "histogram": dict(hist)}
 
 
 PROJECT = {
@@ -434,15 +575,21 @@ def run_histories(ctx, prop, n_hist, length, mode="mixed"):
                         break
                 if len(disagreements) >= 10:
                     break
+    en = run_enumeration(ctx, prop, ctx.scale(3, 4), ctx.scale(6, 8), ctx.scale(1500, 40000))
+    violations.extend(en["violations"])
+    disagreements.extend(en["disagreements"])
+    hist.update({"enum:" + k: v for k, v in en["histogram"].items()})
     return {
-        "evaluations": sum(ln for _, ln in bounds),
-        "distinct_nontrivial": len(distinct),
+        "evaluations": sum(ln for _, ln in bounds) + en["steps"],
+        "distinct_nontrivial": len(distinct) + en["sequences"],
         "samples": samples,
         "histogram": dict(sorted(hist.items())),
-        "requests": len(all_reqs),
+        "requests": len(all_reqs) + en["steps"],
         "violations": violations,
         "disagreements": disagreements,
-        "extra": {"histories": n_hist, "history_length": length},
+        "extra": {"histories": n_hist, "history_length": length, "enumerated_sequences": en["sequences"],
+                  "enumeration": "all call sequences of length %d over a small alphabet (client: 4 calls + 14 deliveries; server: 7 deliveries/unbind + 12 response calls) plus random sequences of length %d"
+                                 % (ctx.scale(3, 4), ctx.scale(6, 8))},
     }
 
 
